@@ -301,8 +301,8 @@ expected signatures (HMAC assumption, C04).
 **For each direction and substream.** An endpoint is at once the sender of one direction and the receiver of the other, on
 several substreams. The system's steps therefore also include everything the endpoints do that is NOT part of the channel under
 study: the sender endpoint sending on other substreams (`aSendOther`) and receiving the other direction's data through its
-whole receive path (`aRecv`, any substream), the receiver endpoint sending data of its own on any substream (`bSend`), its
-keep-alive (`bPing`) and the acknowledgements it is handed (`bAckIn`), acknowledgements of any kind at the sender (`ackIn`).
+whole receive path (`aRecv`, any substream), the receiver endpoint sending data of its own on any substream (`bSend`),
+receiving data of other substreams (`bRecvOther`), its keep-alive (`bPing`) and the acknowledgements it is handed (`bAckIn`), acknowledgements of any kind at the sender (`ackIn`).
 `NxProofs/Roles.lean` shows each of them to be a frame step for the role the channel uses (`SendFr`: counter, key, encryption
 position, fragment size; `RecvFr`: windows, queues, fragment buffers, EOF, link, key, decryption position), so they change
 nothing in the coupling: the end-to-end theorems hold with arbitrary traffic of the other direction and of other substreams
@@ -495,6 +495,15 @@ example :
     (handshakeRun env ("10.0.0.2", 1) ("10.0.0.1", 2)).map (fun (c, s) =>
       (c.state, s.state, establishedB 0 2 c s, establishedB 0 1 s c, establishedB 1 1 c s, establishedB 1 1 s c)) =
       some (STATE_CONNECTED, STATE_CONNECTED, true, true, true, true) := by decide +kernel
+
+open Nx.L1 Nx.Prudp in
+/-- **substreams are independent on the receiver side**: `process_reliable` of a packet of another substream (whose window holds
+    packets of that substream), as long as it does not end the connection — a released DISCONNECT does —, leaves windows, queue,
+    fragment buffer, key and decryption position of this substream's receiver role untouched -/
+theorem other_substreams_do_not_disturb_receiving (env : Env) (c : Conn) (p : Packet) (sub : Nat) (hne : p.substreamId ≠ sub)
+    (hgw : ∀ w, c.windows[p.substreamId]? = some w → ∀ kq ∈ w.packets, kq.2.substreamId = p.substreamId)
+    (hes : EofState c) (heof : (c.processReliable env p).c.eof = c.eof) : RecvFr c (c.processReliable env p).c sub :=
+  processReliable_other_recvFr env c p sub hne hgw hes heof
 
 /-! non-vacuity of the retransmission theorems: with a scheduler (as after `handshake`), a `send` arms one timer per fragment,
     the timers hold exactly what was handed to the transport, and a fired one hands the same packet over again -/
